@@ -37,7 +37,7 @@ def build(case):
 
 def _apply_ref(est, r, t, s, mode):
     """reference application of the returned parameters"""
-    if mode == "scale":
+    if mode in ("scale", "scale_both"):
         return [rm.se3(T[:3, :3], s * T[:3, 3]) for T in est.poses]
     return [rm.se3(r @ T[:3, :3], s * (r @ T[:3, 3]) + t) for T in est.poses]
 
@@ -64,7 +64,8 @@ def _views_consistent(obj, poses, ptol, what):
 
 
 def _mode_args(mode):
-    return {"rigid": (False, False), "similarity": (True, False), "scale": (False, True)}[mode]
+    # "scale_both": the way the command line tools ask for the scale-only correction
+    return {"rigid": (False, False), "similarity": (True, False), "scale": (False, True), "scale_both": (True, True)}[mode]
 
 
 def _n_of(case, N):
@@ -104,7 +105,7 @@ def sub_align(case):
         raise Mismatch("rigid alignment returned scale %r" % s, observed="scale_not_one")
     exp = _apply_ref(est, r, t, s, mode)
     _views_consistent(eo, exp, ptol, "after %s alignment" % mode)
-    if mode == "scale":
+    if mode in ("scale", "scale_both"):
         # nothing but the positions may change
         M = eo.poses_se3
         fresh = est.build()
@@ -125,7 +126,7 @@ def sub_align(case):
     # Horn on the used pairs; S4 fit
     x = est.P[:used].T
     y = ref.P[:used].T
-    ws = mode in ("similarity", "scale")
+    ws = mode in ("similarity", "scale", "scale_both")
     if mode in ("rigid", "similarity"):
         Rh, th, ch, gap = rm.horn(x, y, ws)
         yc = y - y.mean(axis=1, keepdims=True)
@@ -172,7 +173,7 @@ def sub_align(case):
             span = float(np.abs(before_pos - before_pos.mean(axis=0)).max()) + float(np.linalg.norm(before_pos.mean(axis=0) - y.mean(axis=1)))
             if moved > tolr * 10 * (span + ext) + ptol:
                 raise Mismatch("re-aligning moved poses by %.3e" % moved, observed="not_idempotent", mode=mode)
-    elif mode == "scale":
+    elif mode in ("scale", "scale_both"):
         if not s > 0:
             raise Mismatch("scale %r not positive" % s, observed="scale_sign")
     lab = mode + ("/n" if n != -1 else "")
@@ -328,7 +329,7 @@ def _st_case(min_n, max_n, extra):
     return st.integers(min_n, max_n).flatmap(mk)
 
 
-st_align = _st_case(3, 24, {"mode": st.sampled_from(["rigid", "similarity", "scale"]),
+st_align = _st_case(3, 24, {"mode": st.sampled_from(["rigid", "similarity", "scale", "scale_both"]),
                             "n": st.one_of(st.just(-1), st.integers(0, 40))})
 st_origin = _st_case(1, 12, {"near": st.one_of(st.none(), st.none(), st.fixed_dictionaries({
     "dir": st.lists(gen.unit_f, min_size=3, max_size=3), "wexp": st.sampled_from([0, 3, 5, 6, 7]), "d": st.lists(gen.unit_f, min_size=3, max_size=3),
